@@ -1,1 +1,9 @@
 //! Hand-written support shared by generated harness modules: stubs, recording sinks, string builders.
+pub mod de;
+pub mod ser;
+pub mod rec;
+
+/// `false` natively, `true` under verification (stubbed by harnesses that need to know whether
+/// `-Z stubbing` models are in force; concrete playback runs the real functions).
+pub fn is_symbolic() -> bool { false }
+pub fn is_symbolic_true() -> bool { true }
